@@ -119,6 +119,14 @@ Theorem C20_split_lossless : forall ps,
 Proof. exact split_lossless. Qed.
 Print Assumptions C20_split_lossless.
 
+(* ModelCreator (as repaired) hands the check fixed AND user-adjustable parameters: its verdict is
+   the verdict on all given names, hence (C20_check_iff_bindable) on keyword-callability with all of them *)
+Theorem C20_creator_checks_every_parameter : forall s ps,
+  let r := split_model_params ps in
+  check s (map fst (snd r ++ fst r)) = check s (map fst ps).
+Proof. exact creator_checks_all. Qed.
+Print Assumptions C20_creator_checks_every_parameter.
+
 (* ------------------------------------------------------------------ non-vacuity *)
 Definition ex_space : space :=
   {| sp_family := Hex; sp_w := 3; sp_h := 2; sp_x0 := 0; sp_y0 := 0; sp_single := false;
@@ -188,3 +196,9 @@ Example C20_example_split :
   split_model_params [(1, VFixed 5); (2, VSlider 6); (3, VDictType 7); (4, VDictNoType 8)]
   = ([(2, VSlider 6); (3, VDictType 7)], [(1, VFixed 5); (4, VDictNoType 8)]).
 Proof. vm_compute. reflexivity. Qed.
+
+(* def __init__(self, a, b=1, /, c, *, d, **options) needs c and d: a Slider for c counts *)
+Example C20_example_creator :
+  step ex_space [] (init_state ex_case) (Creator ex_sig [(3, VSlider 5); (4, VFixed 1)]) = (init_state ex_case, [0]) /\
+  step ex_space [] (init_state ex_case) (Creator ex_sig [(3, VSlider 5)]) = (init_state ex_case, [-1; 2]).
+Proof. vm_compute. split; reflexivity. Qed.
